@@ -5,6 +5,7 @@ guard.orphan is decided by the C++ engine `msa --engine=orphan` (nullness datafl
 pointers over every function of all units); this module turns its diagnostics into rule
 instances and checks the class invariants the engine's accepted guards rest on."""
 from cfg import Graph, qmatch, show_path
+from rules_own import OWN_SCOPE_FILES
 from core import Finding, RuleResult
 from frontend import AnalysisBroken, where, base_name
 
@@ -295,4 +296,65 @@ def rule_event_level(ctx):
     if n < 3:
         raise AnalysisBroken("guard.event-level: expected ≥3 event unpack sites in the saturateHelper functions, found %d" % n)
     R.require_floor(3, "event unpack sites")
+    return R
+
+
+def rule_terminal_operands(ctx):
+    """a recursive binary operation that unpacks its operands must have a terminal case that looks at *both* operands being terminals: the single-
+    operand cases ("A is the constant TRUE and the forest is fully reduced", …) and the same-node shortcut (A==B in the same forest) leave two
+    terminals of two different forests to fall through to the unpacking.  inter_mt::_compute had only those (defect D20: identity ∧ identity across
+    two identity-reduced forests unpacked the terminal).  Decided structurally: some `return` is governed by the terminal tests of two different
+    handle parameters; what that case returns, and whether a guard inside it (level 0, not forced by levels) lets some combination through to a
+    level-0 unpacking, is value reasoning and is not decided"""
+    import re
+    P = ctx.program
+    R = RuleResult("guard.terminal-operands", "every recursive operation that tests two or more of its node-handle parameters for terminal-ness and unpacks them has a return governed by the terminal tests of two different parameters (a both-terminal case)")
+    n = 0
+    seen = set()
+    for f in sorted(P.fns.values(), key=lambda f: (f["file"], f["line"], f["inst"])):
+        if not f.get("cfg") or not f["file"].startswith("operations/") or (f["file"], f["line"]) in seen:
+            continue
+        if f["file"] not in OWN_SCOPE_FILES and f["file"] != "operations/sat_pregen.cc":
+            continue      # legacy-interface files outside the armed scope: their terminal conventions were not read
+        hs = [p_["name"] for p_ in f.get("params", []) if p_.get("handle")]
+        if len(hs) < 2:
+            continue
+        g = Graph(f)
+        unpacked = {re.sub(r"\s+", "", a) for k in g.nodes if k.kind == "call" and (qmatch(k.ev["q"], "unpacked_node::initFromNode") or qmatch(k.ev["q"], "unpacked_node::newFromNode"))
+                    for a in (k.ev.get("args") or []) if re.sub(r"\s+", "", a) in hs}
+        tests = {}      # branch id -> (handle, edge on which it IS a terminal)
+        for b in g.nodes:
+            if b.kind != "branch" or not b.cond or len(b.succ) != 2:
+                continue
+            m = re.fullmatch(r"!?[\w>.-]+->isTerminalNode\((\w+)\)", re.sub(r"\s+", "", b.cond["text"]))
+            if m and m.group(1) in hs:
+                tests[b.id] = (m.group(1), 1 if b.cond.get("neg") else 0)
+        tested = {h for h, _ in tests.values()}
+        if len(tested & unpacked) < 2:
+            continue
+        seen.add((f["file"], f["line"]))
+        n += 1
+        R.functions.add(f["inst"])
+        R.paths += 1
+        both = False
+        for k in g.nodes:
+            if k.kind != "ret":
+                continue
+            gov = set()
+            for bid, (h, te) in tests.items():
+                b = g.nodes[bid]
+                arms = [i for s_, i in b.succ if k.id in g.reach([s_], avoid=lambda x, bid=bid: x.id == bid)]
+                if arms == [te]:
+                    gov.add(h)
+            if len(gov) >= 2:
+                both = True
+                break
+        iid = "%s: has a case for %s all being terminals" % (f["inst"].replace(M, "")[:70], sorted(tested & unpacked))
+        if both:
+            R.ok(iid, where(f))
+        else:
+            R.fail(iid, where(f), Finding(R.rule, f["file"], base_name(f["q"]), "both-terminal", "no return is governed by the terminal tests of two operands: two terminals of different forests (identity patterns of two identity-reduced forests) fall through the single-operand cases and the same-node shortcut, and a terminal handle is unpacked", f["line"]))
+    if n < 7:
+        raise AnalysisBroken("guard.terminal-operands: only %d recursive operations with two tested operands found, expected ≥7" % n)
+    R.require_floor(7, "recursive operations with terminal cases")
     return R
